@@ -1,6 +1,7 @@
 import RasnModel.Driver.C04
 import RasnModel.Driver.C06
 import RasnModel.Driver.C14
+import RasnModel.Driver.C15
 import RasnModel.Driver.C16
 import RasnModel.Driver.Struct
 /- Line-protocol driver: one request per line, one canonical answer per line. -/
@@ -10,6 +11,7 @@ def dispatch (line : String) : String :=
   | some (.atom "c04" :: args) => Driver.C04.handle args
   | some (.atom "c06" :: args) => Driver.C06.handle args
   | some (.atom "c14" :: args) => Driver.C14.handle args
+  | some (.atom "c15" :: args) => Driver.C15.handle args
   | some (.atom "c16" :: args) => Driver.C16.handle args
   | some (.atom "struct" :: args) => Driver.Struct.handle args
   | some (.atom "recgraph" :: args) => Driver.Struct.handleRec args
